@@ -91,6 +91,9 @@ func VerifC19KeysHeldTogether() {
 	copy1 := append([]byte(nil), k1...)
 	k2 := ConsensusStateKey(h2)
 	rt.Reach("both-keys-built")
+	if !h1.EQ(h2) {
+		rt.Reach("two-different-heights") // also the witness that is run natively against the real slices
+	}
 	rt.Assert("J6-a-held-key-is-not-changed-by-a-later-call", bytes.Equal(k1, copy1))
 	rt.Assert("J6-keys-held-together-differ", h1 == h2 || !bytes.Equal(k1, k2))
 	f1 := FullConsensusStateKey("chain-a", h1)
